@@ -3409,3 +3409,574 @@ func ruleRCCurrReleased(c *Ctx) {
 	}
 	c.Floor("structural trie functions receiving a counted node", n, 6)
 }
+
+// ---------------------------------------------------------------------------
+// collapse-owner (C10) - a collapsed hash node stands for a subtree that can only be read back from the store. The
+// restore machinery (Billet) collapses what it has completely restored *and stored*; the trie itself collapses only
+// in Collapse, whose contract is "flush first". Any other method of Trie that can reach a function creating
+// collapsed nodes (Find lends the billet's traversal its own nodes) must switch collapsing off on the billet it
+// uses: each such creator is guarded by a boolean field of Billet (unreachable when the field is true) and the
+// Trie method sets that field to true before it calls out. Otherwise a search over a trie with changes that are
+// not flushed yet replaces them by hashes nobody can resolve: every later read of the visited keys fails.
+func ruleCollapseOwner(c *Ctx) {
+	pk := c.P.Pkg(mptPkg)
+	if pk == nil {
+		c.Lost("collapse-owner.anchor", "package mpt not found")
+		return
+	}
+	g := c.P.MRG()
+	type creator struct {
+		fd    *FuncDecl
+		guard string // field symbol that switches it off, "" if none
+	}
+	creators := map[*ssa.Function]*creator{}
+	for _, fd := range c.P.AllFuncDecls() {
+		if fd.Pkg != pk || fd.Decl.Body == nil {
+			continue
+		}
+		f := c.P.NewFuncCFG(fd)
+		ws := f.WriteSites(mptPkg + "#Collapsed")
+		if len(ws) == 0 {
+			continue
+		}
+		cr := &creator{fd: fd}
+		// candidate guards: boolean fields of Billet mentioned in the function's conditions
+		if bt, ok := pk.Types.Scope().Lookup("Billet").(*types.TypeName); ok {
+			st := bt.Type().Underlying().(*types.Struct)
+			for i := 0; i < st.NumFields(); i++ {
+				fl := st.Field(i)
+				if b, ok := fl.Type().Underlying().(*types.Basic); !ok || b.Kind() != types.Bool {
+					continue
+				}
+				sym := mptPkg + "#" + fl.Name()
+				live := f.reach(f.Entry(), nil, symAssume(sym, true))
+				all := true
+				for _, w := range ws {
+					if _, ok := live[w.blk]; ok {
+						all = false
+					}
+				}
+				if all {
+					cr.guard = sym
+				}
+			}
+		}
+		if fn := c.P.SSAFunc(fd.Obj); fn != nil {
+			creators[fn] = cr
+		}
+	}
+	c.Floor("functions creating collapsed hash nodes", len(creators), 3)
+	n := 0
+	for _, fd := range c.P.AllFuncDecls() {
+		if fd.Pkg != pk || fd.Decl.Body == nil || fd.Decl.Recv == nil || !fd.Obj.Exported() {
+			continue
+		}
+		sig := fd.Obj.Type().(*types.Signature)
+		if !namedTypeIs(sig.Recv().Type(), mptPkg, "Trie") || fd.Obj.Name() == "Collapse" {
+			continue
+		}
+		root := c.P.SSAFunc(fd.Obj)
+		if root == nil {
+			continue
+		}
+		n++
+		via := g.Reach([]*ssa.Function{root}, nil)
+		key := "collapse-owner." + FuncKey(fd.Obj)
+		var hit []*ssa.Function
+		for fn := range creators {
+			if _, ok := via[fn]; ok && fn != root {
+				hit = append(hit, fn)
+			}
+		}
+		if len(hit) == 0 {
+			c.OK(key, c.P.Pos(fd.Decl.Pos()), "cannot reach any function that creates collapsed hash nodes")
+			continue
+		}
+		sort.Slice(hit, func(i, j int) bool { return FnKey(hit[i]) < FnKey(hit[j]) })
+		f := c.P.NewFuncCFG(fd)
+		bad := ""
+		guards := map[string]bool{}
+		for _, fn := range hit {
+			cr := creators[fn]
+			if cr.guard == "" {
+				bad = fmt.Sprintf("%s creates collapsed hash nodes unconditionally (path: %s)", FnKey(fn), strings.Join(g.PathTo(via, fn), " -> "))
+				break
+			}
+			guards[cr.guard] = true
+		}
+		if bad == "" {
+			// the method must set every guard to true before the first call that leads to a creator
+			for gs := range guards {
+				var sets []site
+				for _, w := range f.WriteSites(gs) {
+					if as, ok := w.node.(*ast.AssignStmt); ok && len(as.Rhs) == 1 {
+						if v, ok := boolConst(f.Info, as.Rhs[0]); ok && v {
+							sets = append(sets, w)
+						}
+					}
+				}
+				var calls []site
+				for _, e := range g.Nodes[root].Out {
+					if e.Site == nil || !e.Site.Pos().IsValid() {
+						continue
+					}
+					if _, ok := reachesAnyFn(g, e.Callee.Fn, creators); ok {
+						for _, b := range f.G.Blocks {
+							if !b.Live {
+								continue
+							}
+							for k, nd := range b.Nodes {
+								if nd.Pos() <= e.Site.Pos() && e.Site.Pos() < nd.End() {
+									calls = append(calls, site{blk: b, idx: k, node: nd})
+								}
+							}
+						}
+					}
+				}
+				if len(calls) == 0 {
+					bad = "the call that leads to the creator could not be located in the method body"
+					break
+				}
+				if ok, _ := f.mustBefore(f.Entry(), calls, sets, nil); !ok {
+					bad = fmt.Sprintf("%s is not set to true before the call that leads to %s", shortSym(gs), FnKey(hit[0]))
+				}
+			}
+		}
+		if bad == "" {
+			c.OK(key, c.P.Pos(fd.Decl.Pos()), fmt.Sprintf("reaches %d creator(s) of collapsed nodes, each switched off by a Billet field the method sets first", len(hit)))
+		} else {
+			c.Fail(key, c.P.Pos(fd.Decl.Pos()), fmt.Sprintf("%s lends its own (possibly unflushed) nodes to code that replaces visited nodes by collapsed hashes: %s; after the call the visited keys can only be read from the store, where unflushed nodes are not", FuncKey(fd.Obj), bad))
+		}
+	}
+	c.Floor("exported Trie methods examined", n, 8)
+}
+
+func reachesAnyFn[T any](g *MRG, from *ssa.Function, set map[*ssa.Function]T) (*ssa.Function, bool) {
+	if _, ok := set[from]; ok {
+		return from, true
+	}
+	via := g.Reach([]*ssa.Function{from}, nil)
+	for fn := range set {
+		if _, ok := via[fn]; ok {
+			return fn, true
+		}
+	}
+	return nil, false
+}
+
+// ---------------------------------------------------------------------------
+// wrap-carry (C13, C17) - multi-word arithmetic done by hand: a word is decremented or incremented and the borrow
+// / carry for the next word is computed from the result. The only correct test is the wrap value of the word's
+// type: after x-- the borrow is x == MaxUintN, after x++ the carry is x == 0. (bigint.ToPreallocatedBytes converts a
+// negative Integer by decrementing its magnitude in place and restores it in a deferred loop; with the wrong
+// constant in the restoring loop the produced bytes are right and the Integer left on the stack is not.)
+// Second clause: a function that writes the words of a *big.Int parameter (through Bits()) restores them in a
+// deferred function - the operand of an instruction is shared with every other reference to the item.
+func ruleWrapCarry(c *Ctx) {
+	sizes := types.SizesFor("gc", "amd64")
+	n, nb := 0, 0
+	for _, fd := range c.P.AllFuncDecls() {
+		if fd.Decl.Body == nil || !strings.HasPrefix(pkgRel(fd.Pkg.Types), "pkg/") {
+			continue
+		}
+		info := fd.Pkg.TypesInfo
+		ast.Inspect(fd.Decl.Body, func(x ast.Node) bool {
+			var list []ast.Stmt
+			switch b := x.(type) {
+			case *ast.BlockStmt:
+				list = b.List
+			case *ast.CaseClause:
+				list = b.Body
+			default:
+				return true
+			}
+			for i := 0; i+1 < len(list); i++ {
+				id, ok := list[i].(*ast.IncDecStmt)
+				if !ok {
+					continue
+				}
+				bt, ok := info.TypeOf(id.X).Underlying().(*types.Basic)
+				if !ok || bt.Info()&types.IsUnsigned == 0 {
+					continue
+				}
+				as, ok := list[i+1].(*ast.AssignStmt)
+				if !ok || len(as.Rhs) != 1 {
+					continue
+				}
+				be, ok := ast.Unparen(as.Rhs[0]).(*ast.BinaryExpr)
+				if !ok || (be.Op != token.EQL && be.Op != token.NEQ) {
+					continue
+				}
+				var k ast.Expr
+				switch {
+				case types.ExprString(be.X) == types.ExprString(id.X):
+					k = be.Y
+				case types.ExprString(be.Y) == types.ExprString(id.X):
+					k = be.X
+				default:
+					continue
+				}
+				tv := info.Types[k]
+				if tv.Value == nil {
+					continue
+				}
+				n++
+				key := fmt.Sprintf("wrap-carry.%s.%s%s", FuncKey(fd.Obj), types.ExprString(id.X), id.Tok)
+				want := constant.MakeInt64(0)
+				if id.Tok == token.DEC {
+					bits := uint(8 * sizes.Sizeof(bt))
+					want = constant.BinaryOp(constant.Shift(constant.MakeInt64(1), token.SHL, bits), token.SUB, constant.MakeInt64(1))
+				}
+				if constant.Compare(constant.ToInt(tv.Value), token.EQL, want) {
+					c.OK(key, c.P.Pos(as.Pos()), fmt.Sprintf("%s then tested against its wrap value %s", id.Tok, want))
+				} else {
+					c.Fail(key, c.P.Pos(as.Pos()), fmt.Sprintf("%s%s is followed by a carry/borrow test against %s; the word wraps to %s: the carry is propagated at the wrong words and the multi-word value ends up different (an Integer converted to bytes in place is not restored)", types.ExprString(id.X), id.Tok, tv.Value, want))
+				}
+			}
+			return true
+		})
+		// second clause
+		sig := fd.Obj.Type().(*types.Signature)
+		params := map[types.Object]bool{}
+		for i := 0; i < sig.Params().Len(); i++ {
+			if namedTypeIsPtr(sig.Params().At(i).Type(), "math/big", "Int") {
+				params[sig.Params().At(i)] = true
+			}
+		}
+		if len(params) == 0 {
+			continue
+		}
+		// locals bound to p.Bits()
+		words := map[types.Object]bool{}
+		ast.Inspect(fd.Decl.Body, func(x ast.Node) bool {
+			as, ok := x.(*ast.AssignStmt)
+			if !ok || len(as.Lhs) != 1 || len(as.Rhs) != 1 {
+				return true
+			}
+			call, ok := ast.Unparen(as.Rhs[0]).(*ast.CallExpr)
+			if !ok {
+				return true
+			}
+			sel, ok := call.Fun.(*ast.SelectorExpr)
+			if !ok || sel.Sel.Name != "Bits" {
+				return true
+			}
+			if rid, ok := ast.Unparen(sel.X).(*ast.Ident); ok && params[info.ObjectOf(rid)] {
+				if lid, ok := as.Lhs[0].(*ast.Ident); ok {
+					words[info.ObjectOf(lid)] = true
+				}
+			}
+			return true
+		})
+		if len(words) == 0 {
+			continue
+		}
+		writes := func(n ast.Node) bool {
+			w := false
+			ast.Inspect(n, func(y ast.Node) bool {
+				var lhs []ast.Expr
+				switch s := y.(type) {
+				case *ast.AssignStmt:
+					lhs = s.Lhs
+				case *ast.IncDecStmt:
+					lhs = []ast.Expr{s.X}
+				}
+				for _, l := range lhs {
+					if ix, ok := ast.Unparen(l).(*ast.IndexExpr); ok {
+						if id, ok := ast.Unparen(ix.X).(*ast.Ident); ok && words[info.ObjectOf(id)] {
+							w = true
+						}
+					}
+				}
+				return true
+			})
+			return w
+		}
+		direct, deferred := false, false
+		inspectNoLit(fd.Decl.Body, func(y ast.Node) bool {
+			if ds, ok := y.(*ast.DeferStmt); ok {
+				if writes(ds.Call) {
+					deferred = true
+				}
+				return false
+			}
+			switch y.(type) {
+			case *ast.AssignStmt, *ast.IncDecStmt:
+				if writes(y) {
+					direct = true
+				}
+			}
+			return true
+		})
+		if !direct {
+			continue
+		}
+		nb++
+		key := "wrap-carry.restore." + FuncKey(fd.Obj)
+		if deferred {
+			c.OK(key, c.P.Pos(fd.Decl.Pos()), "the words of the *big.Int parameter are changed in place and rewritten by a deferred function")
+		} else {
+			c.Fail(key, c.P.Pos(fd.Decl.Pos()), fmt.Sprintf("%s changes the words of its *big.Int parameter in place and no deferred function writes them back: the caller's Integer (shared with every other reference to the stack item) is left changed", FuncKey(fd.Obj)))
+		}
+	}
+	c.Floor("hand-written carry/borrow tests", n, 2)
+	c.Floor("functions changing a *big.Int parameter in place", nb, 1)
+}
+
+func namedTypeIsPtr(t types.Type, pkg, name string) bool {
+	p, ok := t.(*types.Pointer)
+	if !ok {
+		return false
+	}
+	nt, ok := p.Elem().(*types.Named)
+	return ok && nt.Obj().Name() == name && nt.Obj().Pkg() != nil && nt.Obj().Pkg().Path() == pkg
+}
+
+// ---------------------------------------------------------------------------
+// operand-validated (C13) - an instruction's operand is converted (String, BigInt, Bool, Bytes ...) when the
+// instruction executes, and a failing conversion faults the VM whatever the other operands are: ASSERTMSG with a
+// true condition and a message that is not valid UTF-8 faults in the reference. An operand taken from the stack
+// whose *only* conversions sit inside the arguments of a panic is validated on the failing path alone; on the
+// succeeding path an invalid operand goes through.
+func ruleOperandValidated(c *Ctx) {
+	fd := c.P.Func("pkg/vm", "VM", "execute")
+	if fd == nil {
+		c.Lost("operand-validated.anchor", "VM.execute not found")
+		return
+	}
+	info := fd.Pkg.TypesInfo
+	conv := map[string]bool{"String": true, "BigInt": true, "Bool": true, "Bytes": true, "BytesOrNil": true, "Array": true, "Interop": true, "TryBool": true, "TryBytes": true, "TryInteger": true}
+	type use struct {
+		inPanic bool
+		pos     token.Pos
+	}
+	uses := map[types.Object][]use{}
+	defPos := map[types.Object]token.Pos{}
+	// operands: locals bound directly to estack.Pop()/Peek()
+	ast.Inspect(fd.Decl.Body, func(x ast.Node) bool {
+		as, ok := x.(*ast.AssignStmt)
+		if !ok || as.Tok != token.DEFINE || len(as.Lhs) != 1 || len(as.Rhs) != 1 {
+			return true
+		}
+		call, ok := ast.Unparen(as.Rhs[0]).(*ast.CallExpr)
+		if !ok {
+			return true
+		}
+		sel, ok := call.Fun.(*ast.SelectorExpr)
+		if !ok || (sel.Sel.Name != "Pop" && sel.Sel.Name != "Peek") {
+			return true
+		}
+		if fn, ok := info.ObjectOf(sel.Sel).(*types.Func); !ok || FuncKey(fn) != "pkg/vm.(*Stack)."+sel.Sel.Name {
+			return true
+		}
+		if id, ok := as.Lhs[0].(*ast.Ident); ok && id.Name != "_" {
+			defPos[info.ObjectOf(id)] = as.Pos()
+		}
+		return true
+	})
+	var walk func(n ast.Node, inPanic bool)
+	walk = func(n ast.Node, inPanic bool) {
+		ast.Inspect(n, func(x ast.Node) bool {
+			call, ok := x.(*ast.CallExpr)
+			if !ok {
+				return true
+			}
+			if id, ok := ast.Unparen(call.Fun).(*ast.Ident); ok && id.Name == "panic" && !inPanic {
+				if _, isB := info.ObjectOf(id).(*types.Builtin); isB {
+					for _, a := range call.Args {
+						walk(a, true)
+					}
+					return false
+				}
+			}
+			if sel, ok := call.Fun.(*ast.SelectorExpr); ok && conv[sel.Sel.Name] {
+				if id, ok := ast.Unparen(sel.X).(*ast.Ident); ok {
+					if o := info.ObjectOf(id); o != nil {
+						if _, isOp := defPos[o]; isOp {
+							uses[o] = append(uses[o], use{inPanic, call.Pos()})
+						}
+					}
+				}
+			}
+			return true
+		})
+	}
+	walk(fd.Decl.Body, false)
+	n := 0
+	var objs []types.Object
+	for o := range uses {
+		objs = append(objs, o)
+	}
+	sort.Slice(objs, func(i, j int) bool { return defPos[objs[i]] < defPos[objs[j]] })
+	seen := map[string]int{}
+	for _, o := range objs {
+		n++
+		arm := enclosingOpcodeArm(c, fd, defPos[o])
+		seen[arm+"."+o.Name()]++
+		key := fmt.Sprintf("operand-validated.%s.%s", arm, o.Name())
+		if k := seen[arm+"."+o.Name()]; k > 1 {
+			key += fmt.Sprintf("#%d", k)
+		}
+		all := true
+		for _, u := range uses[o] {
+			if !u.inPanic {
+				all = false
+			}
+		}
+		if all {
+			c.Fail(key, c.P.Pos(defPos[o]), fmt.Sprintf("operand %s of %s is converted only inside the arguments of a panic: when the instruction succeeds the operand is never converted, so an operand the conversion rejects (invalid UTF-8, wrong item type) no longer faults the VM as the specification demands", o.Name(), arm))
+		} else {
+			c.OK(key, c.P.Pos(defPos[o]), "converted outside of failure messages")
+		}
+	}
+	c.Floor("operands bound to a local and converted", n, 8)
+}
+
+func enclosingOpcodeArm(c *Ctx, fd *FuncDecl, pos token.Pos) string {
+	info := fd.Pkg.TypesInfo
+	res := "?"
+	ast.Inspect(fd.Decl.Body, func(x ast.Node) bool {
+		cc, ok := x.(*ast.CaseClause)
+		if !ok || !(cc.Pos() <= pos && pos < cc.End()) {
+			return true
+		}
+		for _, e := range cc.List {
+			if tv := info.Types[e]; tv.Type != nil && namedTypeIs(tv.Type, "pkg/vm/opcode", "Opcode") {
+				if sel, ok := ast.Unparen(e).(*ast.SelectorExpr); ok {
+					res = sel.Sel.Name
+					return true
+				}
+			}
+		}
+		return true
+	})
+	return res
+}
+
+// ---------------------------------------------------------------------------
+// budget-shared (C13, C12) - a recursive walk over a compound item is bounded by budgets that are handed down by
+// pointer and shared by the whole walk (number of items compared, total size compared). A budget that is declared
+// *inside* the recursive function - a local initialised from a constant whose address is passed on or which is
+// counted down - starts afresh at every nesting level: the bound then holds per level, not for the operation
+// (EQUAL over nested structs compared 2047 x 64 KiB at a fixed price where the reference faults at 64 KiB).
+func ruleBudgetShared(c *Ctx, pkgs ...string) {
+	in := map[string]bool{}
+	for _, p := range pkgs {
+		in[p] = true
+	}
+	n := 0
+	for _, fd := range c.P.AllFuncDecls() {
+		if fd.Decl.Body == nil || !in[pkgRel(fd.Pkg.Types)] {
+			continue
+		}
+		info := fd.Pkg.TypesInfo
+		// directly recursive?
+		rec := false
+		ast.Inspect(fd.Decl.Body, func(x ast.Node) bool {
+			if call, ok := x.(*ast.CallExpr); ok {
+				if calleeFunc(info, call) == fd.Obj {
+					rec = true
+				}
+			}
+			return true
+		})
+		if !rec {
+			continue
+		}
+		// does it carry a budget by pointer at all (a *int-like parameter that is decremented or passed on)?
+		sig := fd.Obj.Type().(*types.Signature)
+		hasPtrBudget := false
+		for i := 0; i < sig.Params().Len(); i++ {
+			if p, ok := sig.Params().At(i).Type().(*types.Pointer); ok {
+				if b, ok := p.Elem().Underlying().(*types.Basic); ok && b.Info()&types.IsInteger != 0 {
+					hasPtrBudget = true
+				}
+			}
+		}
+		// locals initialised from constants
+		type loc struct {
+			obj types.Object
+			pos token.Pos
+		}
+		var locals []loc
+		inspectNoLit(fd.Decl.Body, func(x ast.Node) bool {
+			switch s := x.(type) {
+			case *ast.AssignStmt:
+				if s.Tok == token.DEFINE && len(s.Lhs) == len(s.Rhs) {
+					for i, l := range s.Lhs {
+						if id, ok := l.(*ast.Ident); ok {
+							if tv := info.Types[s.Rhs[i]]; tv.Value != nil && mentionsNamedConst(info, s.Rhs[i]) {
+								locals = append(locals, loc{info.ObjectOf(id), s.Pos()})
+							}
+						}
+					}
+				}
+			case *ast.ValueSpec:
+				for i, nm := range s.Names {
+					if i < len(s.Values) {
+						if tv := info.Types[s.Values[i]]; tv.Value != nil && mentionsNamedConst(info, s.Values[i]) {
+							locals = append(locals, loc{info.Defs[nm], s.Pos()})
+						}
+					}
+				}
+			}
+			return true
+		})
+		if !hasPtrBudget && len(locals) == 0 {
+			continue
+		}
+		n++
+		key := "budget-shared." + FuncKey(fd.Obj)
+		bad := ""
+		for _, l := range locals {
+			if l.obj == nil {
+				continue
+			}
+			counted, handed := false, false
+			inspectNoLit(fd.Decl.Body, func(x ast.Node) bool {
+				switch s := x.(type) {
+				case *ast.IncDecStmt:
+					if id, ok := ast.Unparen(s.X).(*ast.Ident); ok && info.ObjectOf(id) == l.obj && s.Tok == token.DEC {
+						counted = true
+					}
+				case *ast.AssignStmt:
+					if s.Tok == token.SUB_ASSIGN {
+						if id, ok := ast.Unparen(s.Lhs[0]).(*ast.Ident); ok && info.ObjectOf(id) == l.obj {
+							counted = true
+						}
+					}
+				case *ast.UnaryExpr:
+					if s.Op == token.AND {
+						if id, ok := ast.Unparen(s.X).(*ast.Ident); ok && info.ObjectOf(id) == l.obj {
+							handed = true
+						}
+					}
+				}
+				return true
+			})
+			if counted || handed {
+				bad = fmt.Sprintf("%s (declared at %s from a constant, %s)", l.obj.Name(), c.P.Pos(l.pos), map[bool]string{true: "counted down", false: "handed on by address"}[counted])
+				break
+			}
+		}
+		if bad == "" {
+			c.OK(key, c.P.Pos(fd.Decl.Pos()), "recursive walk; every budget it counts down comes from its caller")
+		} else {
+			c.Fail(key, c.P.Pos(fd.Decl.Pos()), fmt.Sprintf("%s calls itself and keeps the budget %s in a local of its own: every nesting level starts with a full budget, so the limit bounds one level instead of the whole operation", FuncKey(fd.Obj), bad))
+		}
+	}
+	c.Floor("recursive walks carrying a budget", n, 2)
+}
+
+func mentionsNamedConst(info *types.Info, e ast.Expr) bool {
+	found := false
+	ast.Inspect(e, func(x ast.Node) bool {
+		if id, ok := x.(*ast.Ident); ok {
+			if _, ok := info.ObjectOf(id).(*types.Const); ok {
+				found = true
+			}
+		}
+		return true
+	})
+	return found
+}
